@@ -12,7 +12,7 @@ from vlib import coq_bytes, coq_list
 HEADER = ("From ZV Require Import Common.Exec Server.Server Server.ServerExec.\n"
           "Open Scope N_scope.\n")
 
-KINDS = {"Echo": 0, "Ping": 1, "Count": 2, "Total": 3, "Fail": 4, "Sub": 5}
+KINDS = {"Echo": 0, "Ping": 1, "Count": 2, "Total": 3, "Fail": 4, "Sub": 5, "Say": 6}
 
 
 class Tags:
@@ -25,19 +25,41 @@ class Tags:
         return self.n
 
 
-def call(kind, c, t, v=0, oneway=False, more=False, shuffle=None):
-    """Wire bytes (without terminator) of a valid call."""
+def call(kind, c, t, v=0, oneway=False, more=False, shuffle=None, s="", raw_utf8=False):
+    """Wire bytes (without terminator) of a valid call.  more: False = flag absent, True = "more":true,
+    "false" = "more":false written out.  kind "Say" carries the string s, which the service echoes."""
     params = {"c": c, "t": t}
     if kind in ("Echo", "Fail"):
         params["v"] = v
+    if kind == "Say":
+        params["s"] = s
     items = [("method", "org.zv." + kind), ("parameters", params)]
     if oneway:
         items.append(("oneway", True))
-    if more:
+    if more is True:
         items.append(("more", True))
+    elif more == "false":
+        items.append(("more", False))
     if shuffle is not None:
         shuffle.shuffle(items)
-    return json.dumps(dict(items), separators=(",", ":")).encode()
+    return json.dumps(dict(items), separators=(",", ":"), ensure_ascii=not raw_utf8).encode()
+
+
+MORE = [False, True, "false"]
+
+# strings a client may send: U+0000 and other control characters, quotes and backslashes, multi-byte
+# characters (2, 3 and 4 bytes), and mixtures
+NASTY = ["\u0000", "a\u0000b", "\u0000\u0000", "\u0001\u001f\u007f", "tab\there\nnl\rcr\bbs\fff",
+         'q"uote', "back\\slash", '\\"', "/slash", "\u00e9\u00fc", "\u20ac\u4e2d", "\U0001f600",
+         "mix\u0000\"\\\u00e9\u20ac\U0001f600\u001b", "", "plain ascii", "\u2028\u2029", "\ud7ff\ue000"]
+
+
+def nasty(rng):
+    if rng.random() < 0.7:
+        return rng.choice(NASTY)
+    alphabet = ["\u0000", "\u0001", "\u001f", "\n", "\t", '"', "\\", "/", "a", "Z", " ", "\u007f", "\u0080",
+                "\u00e9", "\u07ff", "\u0800", "\u20ac", "\uffff", "\U00010000", "\U0001f600"]
+    return "".join(rng.choice(alphabet) for _ in range(rng.randrange(0, 9)))
 
 
 def bad_frame(kind, c, t, rng=None):
@@ -144,7 +166,7 @@ def coq_xev(e):
     raise ValueError(e)
 
 
-TMPL_ORDER = ["single", "ping", "error", "item0", "item1", "item2"]
+TMPL_ORDER = ["single", "ping", "error", "item0", "item1", "item2", "say"]
 
 
 def render_case(c, res, step, limit):
@@ -157,9 +179,10 @@ def render_case(c, res, step, limit):
     for p in res["polls"]:
         tr = coq_list(["[" + ";".join(str(x) for x in e) + "]" for e in p["tr"]])
         exp.append("(%s, [%s])" % (tr, ";".join(str(x) for x in p["snap"])))
-    return ("{| sc_step := %d; sc_limit := %d; sc_tab := %s; sc_tmpl := %s; sc_script := %s; "
+    strs = coq_list([coq_bytes(bytes.fromhex(x)) for x in res.get("strs", [])])
+    return ("{| sc_step := %d; sc_limit := %d; sc_tab := %s; sc_tmpl := %s; sc_strs := %s; sc_script := %s; "
             "sc_expect := %s; sc_hyp := %s |}") % (
-        step, limit, coq_list(tab), tmpl, coq_list([coq_xev(e) for e in c["script"]]),
+        step, limit, coq_list(tab), tmpl, strs, coq_list([coq_xev(e) for e in c["script"]]),
         coq_list(exp), coq_list([nat(k) for k in c.get("hyp", [])]))
 
 
